@@ -12,6 +12,7 @@
 import re
 import z3
 
+from .interp import G
 from .interp import (Agg, EnumV, Ptr, Opaque, UNIT, UNINIT, Ret, Panic, Unsupported, bv, simp, mk_some, mk_none,
                      mk_option, mk_ok, mk_err, mk_enum, val_eq, ite_val, to_bool, is_variant, fresh, disc_term)
 from .summaries import summary, deref, default_value
@@ -55,6 +56,35 @@ def flatten(v, out=None):
     return out
 
 
+def lift_ite(t, cap=24):
+    """alternatives [(guard, atom)] of a term that is a tree of top-level if-then-else nodes"""
+    t = simp(t) if not z3.is_app_of(t, z3.Z3_OP_ITE) else t
+    out = []
+
+    def walk(x, guards):
+        if len(out) > cap:
+            return
+        if z3.is_app_of(x, z3.Z3_OP_ITE):
+            c, a, b = x.arg(0), x.arg(1), x.arg(2)
+            walk(a, guards + [c])
+            walk(b, guards + [z3.Not(c)])
+        else:
+            out.append((z3.And(guards) if guards else z3.BoolVal(True), x))
+    walk(t, [])
+    if len(out) > cap:
+        return [(z3.BoolVal(True), t)]
+    # merge alternatives with syntactically equal atoms
+    merged = []
+    for g, a in out:
+        for i, (g2, a2) in enumerate(merged):
+            if a2.eq(a):
+                merged[i] = (z3.Or(g2, g), a2)
+                break
+        else:
+            merged.append((g, a))
+    return merged
+
+
 def hash_apply(st, domain, leaves):
     """injective-by-construction hash application; facts are added to the state's path condition"""
     key = (domain, tuple(l.sort().sexpr() for l in leaves))
@@ -71,12 +101,45 @@ def hash_apply(st, domain, leaves):
     else:
         t = f(*leaves)
     tag = 'hash:' + t.sexpr()
-    if tag not in st.notes:
-        st.notes[tag] = True
-        st.assume_fact(DOM(t) == idx)
+    if tag not in G.memo:
+        G.memo[tag] = True
+        G.add(DOM(t) == idx)
         for inv, l in zip(invs, leaves):
-            st.assume_fact(inv(t) == l)
+            G.add(inv(t) == l)
     return t
+
+
+def _hash_decl_names():
+    return {f.name(): dom for (dom, _), (f, invs, idx) in _hash_fns.items()}
+
+
+def hash_eq(a, b):
+    """equality of two terms with A-HASH applied as a rewrite: applications of the same hash function are equal iff
+    their arguments are; applications of different hash functions are never equal; declared-distinct terms differ"""
+    if a.eq(b):
+        return z3.BoolVal(True)
+    if not (z3.is_bv(a) and z3.is_bv(b)) or a.sort() != b.sort():
+        return a == b
+    if z3.is_bv_value(a) and z3.is_bv_value(b):
+        return z3.BoolVal(a.as_long() == b.as_long())
+    if a.size() == 256 and z3.is_app(a) and z3.is_app(b):
+        names = _hash_decl_names()
+        na, nb = a.decl().name(), b.decl().name()
+        if na in names and nb in names:
+            if na != nb or a.num_args() != b.num_args():
+                return z3.BoolVal(False)
+            parts = [hash_eq(a.arg(i), b.arg(i)) for i in range(a.num_args())]
+            if any(z3.is_false(p) for p in parts):
+                return z3.BoolVal(False)
+            parts = [p for p in parts if not z3.is_true(p)]
+            return z3.And(parts) if parts else z3.BoolVal(True)
+    if G.distinct and (a.sexpr(), b.sexpr()) in G.distinct:
+        return z3.BoolVal(False)
+    return a == b
+
+
+import mirsym.interp as _interp_mod
+_interp_mod.LEAF_EQ = hash_eq
 
 
 def hash_domain_of(term):
@@ -154,11 +217,11 @@ def bytes_len(it, st, b):
         return bv(len(b.fields), 64)
     if isinstance(b, Opaque) and b.kind == 'Ser':
         tag = 'serlen:' + b.data.ty + ':' + '|'.join(x.sexpr() for x in flatten(b.data.value))
-        n = st.notes.get(tag)
+        n = G.memo.get(tag)
         if n is None:
             n = fresh('serlen', z3.BitVecSort(64))
-            st.notes[tag] = n
-            st.assume_fact(z3.If(b.data.present, z3.And(z3.UGT(n, 0), z3.ULT(n, 1 << 32)), n == 0))
+            G.memo[tag] = n
+            G.add(z3.If(b.data.present, z3.And(z3.UGT(n, 0), z3.ULT(n, 1 << 32)), n == 0))
         return n
     if isinstance(b, Opaque) and b.kind == 'SymBytes':
         return b.data['len']
@@ -222,11 +285,18 @@ def _deserialize(it, st, args, ctx):
     raise Unsupported('deserialize::<%s> of %r' % (ty, b))
 
 
+class State_for_symvalue:
+    """collects the validity constraints sym_value() emits for a value that lives in the global initial state"""
+
+    def __init__(self):
+        self.pc = []
+
+
 def deser_symbytes(it, st, full_ty, b):
     """decoding arbitrary bytes: an arbitrary Result that is a function of the bytes' identity"""
     ident = b.data['id']
     tag = 'deser:' + full_ty
-    reads = st.notes.get(tag, ())
+    reads = G.memo.setdefault(tag, [])
     for (i2, ok2, v2) in reads:
         if i2.eq(ident):
             ok, val = ok2, v2
@@ -235,10 +305,15 @@ def deser_symbytes(it, st, full_ty, b):
         n = len(reads)
         nm = re.sub(r'\W+', '_', full_ty)
         ok = fresh('decodes_%s_%d' % (nm, n), z3.BoolSort())
-        val = it.sym_value(full_ty if full_ty.startswith('(') else type_base(full_ty), 'decoded_%s_%d' % (nm, next(_deser_ctr)), st)
+        holder = State_for_symvalue()
+        val = it.sym_value(full_ty if full_ty.startswith('(') else type_base(full_ty), 'decoded_%s_%d' % (nm, next(_deser_ctr)), holder)
+        for c in holder.pc:
+            G.add(c)
         for (i2, ok2, v2) in reads:
-            st.assume_fact(z3.Implies(i2 == ident, z3.And(ok2 == ok, val_eq(v2, val))))
-        st.notes[tag] = reads + ((ident, ok, val),)
+            G.add(z3.Implies(i2 == ident, z3.And(ok2 == ok, val_eq(v2, val))))
+        reads.append((ident, ok, val))
+    # keep the per-state view used by the scenario builder
+    st.notes[tag] = tuple(reads)
     return EnumV('Result', z3.If(ok, bv(0, 8), bv(1, 8)), {'Ok': (val,), 'Err': (Opaque('BincodeError'),)})
 
 
@@ -302,7 +377,8 @@ class TreeModel:
         self.value_types = value_types or {}
 
     def with_entry(self, k, v, g=None):
-        return TreeModel(self.base, self.entries + ((k, v, z3.BoolVal(True) if g is None else g),), self.value_types)
+        g = z3.BoolVal(True) if g is None else g
+        return TreeModel(self.base, self.entries + ((k, v, g),), self.value_types)
 
     def sym_ite(self, c, other):
         if self.base != other.base:
@@ -345,17 +421,22 @@ def base_read(it, st, tm, key):
     if vty is None:
         raise Unsupported('tree %s read at key of unknown domain %s (%s)' % (tm.base, dom, key.sexpr()[:80]))
     tag = 'base:%s' % tm.base
-    reads = st.notes.get(tag, ())
+    reads = G.memo.setdefault(tag, [])
     for (k2, v2) in reads:
         if k2.eq(key):
+            _note_read(st, tag, k2, v2)
             return v2
-    n = next(_base_ctr)  # globally unique: reads made on different branches must not share variables
+    n = next(_base_ctr)
     present = z3.Bool('%s_present_%d' % (tm.base, n))
-    val = it.sym_value(vty, '%s_val_%d' % (tm.base, n), st)
+    holder = State_for_symvalue()
+    val = it.sym_value(vty, '%s_val_%d' % (tm.base, n), holder)
+    for c in holder.pc:
+        G.add(c)
     v = ser(vty, val, present)
-    for (k2, v2) in reads:
+    for (k2, v2) in list(reads):
         pair_axioms(it, st, tm.base, (k2, v2), (key, v))
-    st.notes[tag] = reads + ((key, v),)
+    reads.append((key, v))
+    _note_read(st, tag, key, v)
     hook = it.base_single_hooks.get(tm.base) if hasattr(it, 'base_single_hooks') else None
     if hook:
         hook(it, st, key, dom, v)
@@ -365,11 +446,24 @@ def base_read(it, st, tm, key):
     return v
 
 
+def _note_read(st, tag, key, v):
+    """per-state record of which entries of the initial tree this path looked at (for the scenario builder)"""
+    cur = st.notes.get(tag, ())
+    if not any(k.eq(key) for k, _ in cur):
+        st.notes[tag] = cur + ((key, v),)
+
+
+def all_base_reads(base):
+    return list(G.memo.get('base:%s' % base, []))
+
+
 def pair_axioms(it, st, base, r1, r2):
     """facts tying two lazily sampled entries of the same arbitrary tree: congruence, plus the harness' invariant"""
     (k1, v1), (k2, v2) = r1, r2
     if hash_domain_of(k1) == hash_domain_of(k2):
-        st.assume_fact(z3.Implies(k1 == k2, v1.data.sym_eq(v2.data)))
+        ke = simp(hash_eq(k1, k2))
+        if not z3.is_false(ke):
+            G.add(z3.Implies(ke, v1.data.sym_eq(v2.data)))
     hook = it.base_pair_hooks.get(base) if hasattr(it, 'base_pair_hooks') else None
     if hook:
         hook(it, st, r1, r2)
@@ -382,7 +476,7 @@ def tree_get(it, st, tm, key):
         d2 = hash_domain_of(k)
         if kd is not None and d2 is not None and kd != d2:
             continue  # A-HASH: ranges of different hash domains are disjoint (the DOM facts are in the pc as well)
-        c = simp(z3.And(g, k == key))
+        c = simp(z3.And(g, hash_eq(k, key)))
         if z3.is_true(c):
             v = val
         elif z3.is_false(c):
